@@ -16,7 +16,7 @@ META = {
             "wf_check runs on every tree the implementation builds; recorded pairs are compared with the all-pairs scan.",
     "note": "Trusted: Coq kernel, extraction (ExtrOcamlBasic), the C++ harnesses reading Collider's private arrays, integer-valued boxes standing for doubles (order-isomorphic embedding, +-2^60 for +-infinity). "
             "Not modelled: C++ int overflow in RangeEnd for n > 2^29 leaves; "
-"BuildInternalBoxes' atomic arrival counters (modelled as order-independent unions; exercised in the par and sim builds above the thresholds read from collider.h); MortonCode's floating-point part; Collider::Transform/UpdateBoxes are covered only through the box-level theorem (any boxes).",
+"BuildInternalBoxes' atomic arrival counters (modelled as order-independent unions; exercised in the par and sim builds above the thresholds read from collider.h); MortonCode's floating-point part; Collider::Transform: collisions_exact_after_transform (btransform = Box::Transform for axis-aligned matrices on finite non-empty boxes, compared node by node with the implementation); UpdateBoxes through the certificate.",
 }
 
 
@@ -298,6 +298,33 @@ def run(cx):
     # certificate on the implementation's own arrays
     rc3, out_cert, err3 = vp.sh2([drv], input="\n".join(cert_lines) + "\n", timeout=1800)
     certs = {l.split()[1]: l.split()[2] for l in out_cert.splitlines() if l.startswith("W ")}
+
+    # Box::Transform vs the model's btransform (hypothesis of collisions_exact_after_transform): every node box
+    # after UpdateBoxes (CERT <id>.u), mapped by btransform with the harness's matrix, must be the node box the
+    # implementation holds after Collider::Transform (CERT <id>.t). The matrix of harness/c14_bvh.cpp:
+    # x' = 2y + 1, y' = -z + 2, z' = 3x + 3  ->  rows (sel, scale, translation)
+    T_ROWS = "1 2 1 2 -1 2 0 3 3"
+    cu = {l.split()[1][:-2]: l.split() for l in cert_lines if l.split()[1].endswith(".u")}
+    ct = {l.split()[1][:-2]: l.split() for l in cert_lines if l.split()[1].endswith(".t")}
+    bt_lines, bt_want = [], {}
+    for k in list(cu)[:cx.pick(400, 4000)]:
+        if k not in ct:
+            continue
+        n_k = int(cu[k][2])
+        bt_lines.append("BT %s %s %s" % (k, T_ROWS, " ".join(cu[k][3 + 2 * (n_k - 1):])))
+        bt_want[k] = ct[k][3 + 2 * (n_k - 1):]
+    rc4, out_bt, err4 = vp.sh2([drv], input="\n".join(bt_lines) + "\n", timeout=1800)
+    bt_bad = 0
+    got_bt = {l.split()[1]: l.split()[2:] for l in out_bt.splitlines() if l.startswith("T ")}
+    for k, want_b in bt_want.items():
+        if got_bt.get(k) != want_b:
+            bt_bad += 1
+            if bt_bad <= 2:
+                cx.broke("corr:C14/Box::Transform#case %s" % k, "node boxes after Collider::Transform differ from the model's btransform of the boxes before it")
+    cx.cov["box_transform_correspondence"] = {"cases": len(bt_want), "mismatches": bt_bad}
+    cx.obligation("translate:harness matrix is the one the model rows describe",
+                  "mat3x4 m({0.0, 0.0, 3.0}, {2.0, 0.0, 0.0}, {0.0, -1.0, 0.0}, {1.0, 2.0, 3.0});" in open(os.path.join(vp.ROOT, "harness/c14_bvh.cpp")).read(),
+                  "harness/c14_bvh.cpp no longer uses the matrix that T_ROWS in checks/C14.py encodes")
 
     mism, nontriv, seen = 0, 0, set()
     dist = {"n<=8": 0, "n<=64": 0, "n>64": 0, "self": 0, "point": 0, "dupcodes": 0}
